@@ -590,6 +590,21 @@ func (e *vestEnv) mustSucceedRules(c *fw.Case, o *txOutcome) {
 	}
 	// the fee must have been affordable
 	switch op.kind {
+	case "create-account":
+		// a funded sender, a fresh recipient, a schedule that ends after it starts: nothing
+		// stands in the way (in whatever order the message lists its coins)
+		if op.owner != op.signer.Bech() || op.respelled || op.to == op.owner || o.pre.Accounts[op.to] != "" || isModuleAddr(op.to) || op.end <= op.start || op.start <= 0 || !op.fee.IsZero() {
+			return
+		}
+		if _, err := sdk.AccAddressFromBech32(op.to); err != nil {
+			return
+		}
+		for _, cn := range op.coins {
+			if !cn.Amount.IsPositive() || cn.Amount.BigInt().Cmp(bigOf(o.preSpendable, cn.Denom)) > 0 {
+				return
+			}
+		}
+		c.ViolateD("C08/valid-create-account-rejected", map[string]string{"op": op.desc, "log": short(o.res.Log, 400)}, "direct creation of a vesting account with %s for a fresh address was rejected: %s", op.coins, short(o.res.Log, 200))
 	case "withdraw":
 		// whoever owns pools can sweep them at any time (before the lock end it pays nothing)
 		if op.owner != op.signer.Bech() || op.respelled || len(o.prePools[op.owner]) == 0 || !op.fee.IsZero() {
